@@ -365,7 +365,14 @@ func genLexGram(r *rand.Rand, name string, hashBuggy bool) *lexGram {
 
 	// {eoi} inside a pattern
 	if r.Intn(8) == 0 {
-		add(lexRule{sc: sc(), name: "hashline", pat: `#[^\n]*(\n|{eoi})`, frags: []string{"#x\n", "#last", "#"}})
+		pat := `#[^\n]*(\n|{eoi})`
+		if !lexEoiLoopDefect() && r.Intn(2) == 0 {
+			// {eoi} under a repetition: sampled only when the tables of the probe grammar have no cycle
+			// on the EOI column (known finding C12-eoi-loop: Next() does not return)
+			pat = `#[^\n]*(\n|{eoi})+`
+			tag("eoi-in-repetition")
+		}
+		add(lexRule{sc: sc(), name: "hashline", pat: pat, frags: []string{"#x\n", "#last", "#", "#a\n\n"}})
 		tag("eoi-pattern")
 	}
 	// code without effect on positions (forces rule ids)
@@ -598,12 +605,15 @@ type lexReq struct {
 	Text  string
 }
 
-func (b *lexBatch) Run(reqs []lexReq) []string {
+func (b *lexBatch) Run(reqs []lexReq) []string { return b.RunTimeout(reqs, 10*time.Minute) }
+
+// RunTimeout is Run with a deadline: requests that got no answer (the runner was killed) yield "crash".
+func (b *lexBatch) RunTimeout(reqs []lexReq, d time.Duration) []string {
 	var in bytes.Buffer
 	for _, r := range reqs {
 		fmt.Fprintf(&in, "%s\t%d\t%s\n", r.Lexer, r.State, strconv.Quote(r.Text))
 	}
-	ctx, cancel := context.WithTimeout(context.Background(), 10*time.Minute)
+	ctx, cancel := context.WithTimeout(context.Background(), d)
 	defer cancel()
 	cmd := exec.CommandContext(ctx, b.bin)
 	cmd.Stdin = &in
@@ -978,4 +988,57 @@ func (ref *lexRef) tokenize(state int, text string, limit int) []lexNamedTok {
 		off += size
 	}
 	return ret
+}
+
+// ---- probes shared by C11 and C12 ----
+
+const lexEoiLoopProbe = `language pq(go);
+lang = "pq"
+package = "gp/pq"
+:: lexer
+ws: /[ ]+/ (space)
+a: /a/
+q: /b{eoi}+/
+`
+
+// eoiColumnCycle reports whether following the EOI column (checkpoints included) from some state
+// never reaches a final action: the generated Next() then spins at the end of the input.
+func eoiColumnCycle(t *lex.Tables) bool {
+	n := len(t.Dfa) / t.NumSymbols
+	start := t.ActionStart()
+	for s := 0; s < n; s++ {
+		cur := s
+		ok := false
+		for step := 0; step <= n+1; step++ {
+			e := t.Dfa[cur*t.NumSymbols]
+			if e <= start {
+				ok = true
+				break
+			}
+			if e < 0 {
+				cur = t.Backtrack[-1-e].NextState
+			} else {
+				cur = e
+			}
+		}
+		if !ok {
+			return true
+		}
+	}
+	return false
+}
+
+var lexEoiLoopState int // 0 unknown, 1 defect present, 2 absent
+
+// lexEoiLoopDefect compiles the probe grammar with the real compiler and looks for a cycle on the EOI
+// column of its tables (static; the dynamic confirmation with a timeout is part of ./check C12).
+func lexEoiLoopDefect() bool {
+	if lexEoiLoopState == 0 {
+		lexEoiLoopState = 2
+		gp := compileTM("pq", lexEoiLoopProbe, TMOpts{})
+		if gp.Err == nil && gp.G.Lexer != nil && gp.G.Lexer.Tables != nil && eoiColumnCycle(gp.G.Lexer.Tables) {
+			lexEoiLoopState = 1
+		}
+	}
+	return lexEoiLoopState == 1
 }
